@@ -18,20 +18,20 @@ the Go source now: order of the calls in approve/compare, the gate before applyC
 request with its literal argument, every guard with its condition text, every Abort. -/
 theorem skeleton_matches :
     modelSkeletons.all (fun e => NA.Gen.GateSkel.functions.lookup e.1 == some e.2) = true := by
-  decide
+  decide +kernel
 
 /-- drc: `-C` is the only source of `isCompare`, which is the first argument of
 ApproveOrCompare; two arguments go to CompareFiles.  do-approve: `isCompare := action == "compare"`. -/
 theorem front_ends_match :
     frontEndFacts.all (fun e =>
       (NA.Gen.GateSkel.functions.lookup e.1).map (fun l => l.filter isFrontEndItem) == some e.2) = true := by
-  decide
+  decide +kernel
 
 /-- Which field each `GetErrUnmanaged` of the module returns — the model's `consults`. -/
 theorem gate_impls :
     NA.Gen.GateSkel.gateImpls =
-      [("cisco.(*State).GetErrUnmanaged", "s.errUnmanaged"), ("linux.(*State).GetErrUnmanaged", "nil"),
-       ("nsx.(*State).GetErrUnmanaged", "nil"), ("panos.(*State).GetErrUnmanaged", "s.errUnmanaged")] := by
+      [("cisco.(*State).GetErrUnmanaged", "recv.errUnmanaged"), ("linux.(*State).GetErrUnmanaged", "nil"),
+       ("nsx.(*State).GetErrUnmanaged", "nil"), ("panos.(*State).GetErrUnmanaged", "recv.errUnmanaged")] := by
   decide
 
 /-- `errUnmanaged` is written at exactly the three places the model has a `record` node. -/
